@@ -224,8 +224,15 @@ def search_types(skip_known=True):
     return None
 
 
+def search_total():
+    """the value API returns for every pair of a generated value universe (shared with C12), including unhashable literals
+    against large literal unions (the _known_subvals fast path)"""
+    from replay.r_c12 import search_values
+    return search_values()
+
+
 def r_c03(rec):
-    for fn in (search_literals, search_types):
+    for fn in (search_literals, search_types, search_total):
         msg = fn()
         if msg:
             return True, msg
